@@ -197,7 +197,7 @@ theorem toYamlSafe_arrayFree (a : Assoc) (h : plainA a = true) : arrayFreeA (toS
   arrayFreeA_toSafeA a h
 
 /-- … and no numpy scalar either: it lies in the domain of the codec law (what PyYAML writes with
-    standard tags).  `plainA` admits numpy scalars as option values and anywhere inside lists and
+    standard tags).  `plainA` allows numpy scalars as option values and anywhere inside lists and
     tuples (D38: before the repair they were left in place, see `numpy_scalar_not_loadable_before_fix`). -/
 theorem toYamlSafe_yamlSafe (a : Assoc) (h : plainA a = true) : yamlSafeA (toSafeA a) = true :=
   yamlSafeA_toSafeA a h
